@@ -25,8 +25,11 @@ def contract_module(prop):
 
 def _work(i):
     from gsv import symkernel, solvers
+    from gsv.engine import smt
     ob = _OBS[i]
     t = time.time()
+    for kx in smt.STATS:
+        smt.STATS[kx] = 0
     try:
         backends = _CERT(ob) if callable(_CERT) else _CERT
         res = symkernel.run_symbolic(ob.fn, _REPO, eager=ob.eager, cert_backends=backends,
@@ -219,12 +222,16 @@ def check(prop, tier="quick", seed=0, repo="/repo", jobs=None, only=None, verbos
     # --- failed obligations: find and replay a failing input on the real code
     replay_dir = os.path.join(VERIF, "replays", prop)
     internal_failed = []
+    n_searched = 0
     for ob, res, failed in failing:
         labels = sorted({g["label"] for g in failed})
         if ob.tier == "internal":
             internal_failed.append((ob, res, failed, labels))
             continue
-        violations.append(_report_failure(prop, tier, seed, repo, ob, res, failed, labels, replay_dir, known, known_seen))
+        n_searched += 1
+        # full search budget for the first failures, a reduced one when very many obligations fail at once
+        violations.append(_report_failure(prop, tier, seed, repo, ob, res, failed, labels, replay_dir, known, known_seen,
+                                          budget=400 if n_searched <= 6 else 40))
     # internal contracts that fail while every top-level obligation holds: the decomposition drifted, not the property
     for ob, res, failed, labels in internal_failed:
         if any(v for v in violations if v):
@@ -353,7 +360,7 @@ COMMON_ASSUMPTIONS = [
 ]
 
 
-def _report_failure(prop, tier, seed, repo, ob, res, failed, labels, replay_dir, known, known_seen):
+def _report_failure(prop, tier, seed, repo, ob, res, failed, labels, replay_dir, known, known_seen, budget=400):
     """Search a failing input on the real code for a failed top-level obligation; write the replay file."""
     witness = {}
     for g in failed:
@@ -363,7 +370,7 @@ def _report_failure(prop, tier, seed, repo, ob, res, failed, labels, replay_dir,
     verifier_output = {"failed_goals": [{k: v for k, v in g.items() if k != "model"} for g in failed[:6]], "model": witness}
     found = None
     if ob.numeric:
-        num = run_numeric(prop, tier, seed, repo, [ob.id], 400, "search", witness=witness)
+        num = run_numeric(prop, tier, seed, repo, [ob.id], budget, "search", witness=witness)
         if "error" in num:
             verifier_output["numeric_error"] = num["error"]
         else:
